@@ -76,6 +76,10 @@ class _Sim(object):
         elif n == "AddTaxon":
             if op[1] < self.nobj:
                 self._add(op[1])
+        elif n == "AddTaxa":
+            if all(t < self.nobj for t in op[1]):
+                for t in op[1]:
+                    self._add(t)
         elif n == "RemoveTaxon":
             self._remove(op[1])
         elif n in ("RemoveLabel", "DiscardLabel"):
@@ -137,6 +141,37 @@ def gen_case(rng, maxlen):
             return rng.randrange(sim.nobj)
         return rng.randrange(sim.nobj + 2)      # may not exist yet: the harness skips the op
 
+    def repeats(xs):
+        # the SAME element several times inside one batch argument
+        xs = list(xs)
+        if xs and rng.random() < 0.45:
+            for _ in range(rng.randint(1, 2)):
+                xs.insert(rng.randint(0, len(xs)), rng.choice(xs))
+        return xs
+
+    def batch():
+        # argument of add_taxa: existing Taxon objects - non-members (repeated more often than not),
+        # members, rarely an object that does not exist yet (op skipped)
+        out = []
+        non = [t for t in range(sim.nobj) if t not in sim.idx]
+        for _ in range(rng.randint(0, 4)):
+            r = rng.random()
+            if non and r < 0.55:
+                out.append(rng.choice(non))
+            elif sim.members and r < 0.9:
+                out.append(rng.choice(sim.members))
+            elif sim.nobj:
+                out.append(rng.randrange(sim.nobj))
+        if rng.random() < 0.02:
+            out.append(sim.nobj + 1)
+        picked_non = [t for t in out if t not in sim.idx]
+        if picked_non and rng.random() < 0.6:
+            for _ in range(rng.randint(1, 2)):
+                out.insert(rng.randint(0, len(out)), rng.choice(picked_non))
+        elif out and rng.random() < 0.3:
+            out.insert(rng.randint(0, len(out)), rng.choice(out))
+        return out
+
     def live_subset():
         live = [sim.idx[t] for t in sim.members]
         k = rng.randint(0, len(live))
@@ -163,15 +198,20 @@ def gen_case(rng, maxlen):
     if rng.random() < 0.7:
         # start from a populated namespace
         pending.append(["NewTaxa", [rng.randrange(len(pool)) for _ in range(rng.randint(2, 7))]])
+        if nfree >= 2 and rng.random() < 0.3:
+            # pooled Taxon objects, some of them more than once (e.g. the leaf taxa of several trees)
+            pending.append(["AddTaxa", [rng.randrange(nfree) for _ in range(rng.randint(2, 5))], rng.randrange(3)])
     while len(ops) < n:
         if pending:
             op = pending.pop(0)
         else:
             k = rng.random()
-            if k < 0.14:
+            if k < 0.10:
                 op = ["NewTaxon", L()]
+            elif k < 0.14:
+                op = ["AddTaxa", batch(), rng.randrange(3)]
             elif k < 0.19:
-                op = ["NewTaxa", [L() for _ in range(rng.randint(0, 3))]]
+                op = ["NewTaxa", repeats([L() for _ in range(rng.randint(0, 3))])]
             elif k < 0.27:
                 op = ["RequireTaxon", L(), CS()]
             elif k < 0.32:
@@ -199,9 +239,9 @@ def gen_case(rng, maxlen):
             elif k < 0.725:
                 op = ["HasLabel", L(), CS()]
             elif k < 0.745:
-                op = ["HasLabels", [L() for _ in range(rng.randint(0, 3))], CS()]
+                op = ["HasLabels", repeats([L() for _ in range(rng.randint(0, 3))]), CS()]
             elif k < 0.775:
-                op = ["GetTaxa", [L() for _ in range(rng.randint(0, 3))], CS(), rng.random() < 0.5]
+                op = ["GetTaxa", repeats([L() for _ in range(rng.randint(0, 3))]), CS(), rng.random() < 0.5]
             elif k < 0.805:
                 op = ["TaxonBitmask", T()]
             elif k < 0.845:
@@ -275,6 +315,19 @@ def observe(case):
                     ns.add_taxa([objs[op[1]]])
                 else:
                     ns.add_taxon(objs[op[1]])
+                out = ["OUnit"]
+            elif name == "AddTaxa":
+                if any(i >= len(objs) for i in op[1]):
+                    raise core_skip()
+                batch = [objs[i] for i in op[1]]
+                v = op[2] if len(op) > 2 else 0
+                if v == 1:
+                    r = ns.add_taxa(t for t in batch)           # any iterable, e.g. a generator
+                elif v == 2:
+                    r = ns.add_taxa(tuple(batch))
+                else:
+                    r = ns.add_taxa(batch)
+                assert r is None
                 out = ["OUnit"]
             elif name == "NewTaxon":
                 t = ns.new_taxon(pool[op[1]]); out = ["OTax", reg(t)]
@@ -408,18 +461,27 @@ def observe(case):
             out = ["SKIP"]
         except Exception as e:
             out = ["OErr", core.exc_enum(e)]
-        state = [[reg(t), ns.accession_index(t)] for t in ns]
+        state = [[reg(t), acc_index(ns, t)] for t in ns]
         # container protocol agrees with the member list (checked by the oracle)
         proto = bool(len(ns) == len(state) and all(t in ns for t in ns)
                      and all(ns[i] is t for i, t in enumerate(ns))
                      and [reg(t) for t in reversed(ns)] == [x[0] for x in reversed(state)]
                      and not any(o in ns for o in objs if not any(o is t for t in ns)))
-        res.append([out, state, [pool.index(t.label) for t in ns], bool(ns.is_mutable), bool(ns.is_case_sensitive), proto])
+        res.append([out, state, [pool.index(t.label) for t in ns], bool(ns.is_mutable), bool(ns.is_case_sensitive), proto,
+                    ns.all_taxa_bitmask()])
     return res
 
 
 class core_skip(Exception):
     pass
+
+
+def acc_index(ns, t):
+    """accession index of a listed taxon; -1 when the namespace has none for it (the oracle reports that)"""
+    try:
+        return ns.accession_index(t)
+    except KeyError:
+        return -1
 
 
 def parse_groups(s, pool):
@@ -450,11 +512,28 @@ def oracle(case, obs):
     mutable = True
     cs_ns = case["cs"]
     seen = set(range(len(case["free"])))
+    owned = set()       # accession indices that some member has been seen to own
+    prev_all = 0        # all_taxa_bitmask() after the previous step
     for step, (op, rec) in enumerate(zip(ops, ob)):
         out, state, labs, is_mut, is_cs = rec[:5]
         if len(rec) > 5 and not rec[5]:
             return ("len / in / [] / reversed of the namespace disagree with its member list after step %d %s" % (step, op), "container-protocol")
         name = op[0]
+        allm = rec[6] if len(rec) > 6 else None
+        if any(i < 0 for _t, i in state):
+            return ("the namespace lists a Taxon object without an accession index after step %d %s: %s" % (step, op, state), "member-without-bit:" + name)
+        # Inv after every operation: the members are pairwise distinct objects ...
+        if len(set(t for t, _ in state)) != len(state):
+            return ("the namespace lists a Taxon object more than once after step %d %s: members %s" % (step, op, [t for t, _ in state]), "duplicate-member:" + name)
+        if allm is not None:
+            # ... each with one bit inside all_taxa_bitmask, and all_taxa_bitmask has no bit that never had an owner
+            for t, i in state:
+                if not (allm >> i) & 1:
+                    return ("member %d has bit %d outside all_taxa_bitmask %d after step %d %s" % (t, 1 << i, allm, step, op), "bit-outside-all-taxa:" + name)
+            owned.update(i for _t, i in state)
+            orphan = [i for i in range(allm.bit_length()) if i not in owned]
+            if allm & (allm + 1) or orphan:
+                return ("all_taxa_bitmask %d has bits %s that no member ever owned (step %d %s)" % (allm, orphan, step, op), "all-taxa-bit-never-owned:" + name)
         idx = {}
         for t, i in state:
             if i in idx.values():
@@ -514,6 +593,22 @@ def oracle(case, obs):
                     want.extend(t for t in m if t not in want)
             if out != ["OTaxa", want]:
                 return ("get_taxa returned %s, expected %s (step %d %s)" % (out, want, step, op), "get-taxa")
+        if name == "AddTaxa":
+            # the batch = its distinct not-yet-member objects, once each, in the order of first occurrence
+            new = []
+            for t in op[1]:
+                if t not in prev_members and t not in new:
+                    new.append(t)
+            if mutable or not new:
+                base_count = prev_all.bit_length()
+                if out != ["OUnit"] or members != prev_members + new:
+                    return ("add_taxa(%s) to members %s gave %s, members %s (step %d)" % (op[1], prev_members, out, members, step), "add-taxa-batch-members")
+                if [idx[t] for t in new] != list(range(base_count, base_count + len(new))) or \
+                        (allm is not None and allm != (1 << (base_count + len(new))) - 1):
+                    return ("add_taxa(%s): the %d new members got indices %s, all_taxa_bitmask %d -> %s (step %d)"
+                            % (op[1], len(new), [idx[t] for t in new], prev_all, allm, step), "add-taxa-batch-bits")
+            elif out != ["OErr", "TypeErr"] or members != prev_members:
+                return ("add_taxa(%s) with a non-member on an immutable namespace: %s, members %s -> %s (step %d)" % (op[1], out, prev_members, members, step), "add-taxa-immutable")
         if name in ("NewTaxon", "NewTaxa") and mutable:
             k = 1 if name == "NewTaxon" else len(op[1])
             new = members[len(prev_members):]
@@ -575,6 +670,8 @@ def oracle(case, obs):
         prev_members = members
         mutable = is_mut
         cs_ns = is_cs
+        if allm is not None:
+            prev_all = allm
     return None
 
 
@@ -607,7 +704,7 @@ def c_op(op):
     zl = lambda l: clist([cz(x) for x in l])
     if n in ("AddTaxon", "RemoveTaxon", "TaxonBitmask", "AccIndex", "NewTaxon", "BitmaskTaxa", "NewickGroups"):
         return "(%s %s)" % (n, cz(op[1]))
-    if n in ("NewTaxa", "TaxaBitmask"):
+    if n in ("NewTaxa", "TaxaBitmask", "AddTaxa"):
         return "(%s %s)" % (n, zl(op[1]))
     if n in ("RequireTaxon", "GetTaxon", "FindAll", "HasLabel"):
         return "(%s %s %s)" % (n, cz(op[1]), cso(op[2]))
@@ -653,7 +750,7 @@ def nontrivial(case, obs):
 
 
 def exhaustive_cases():
-    """every op sequence of length <= 3 over a 24-op alphabet, and every sequence of length 4 over
+    """every op sequence of length <= 3 over a 25-op alphabet, and every sequence of length 4 over
     an 11-op alphabet, on the 3-label pool A/a/b with one free Taxon object"""
     import itertools
     pool = ["A", "a", "b"]
@@ -661,7 +758,7 @@ def exhaustive_cases():
              ["RemoveTaxon", 0], ["RemoveTaxon", 1], ["RemoveLabel", 1, None, True], ["DiscardLabel", 0, False, False],
              ["Clear"], ["Sort", False], ["Sort", True], ["Reverse"], ["Relabel", 0, 2], ["FindAll", 0, None],
              ["TaxonBitmask", 0], ["BitmaskTaxa", 3], ["NewickGroups", 2], ["SetMutable", False], ["DeepCopy"], ["CopyConstruct"],
-             ["AddTaxon", 0], ["TaxaBitmask", [1, 0]], ["GetTaxa", [0, 2], None, False]]
+             ["AddTaxon", 0], ["TaxaBitmask", [1, 0]], ["GetTaxa", [0, 2], None, False], ["AddTaxa", [0, 1, 0]]]
     for n in (1, 2, 3):
         for seq in itertools.product(alpha, repeat=n):
             yield {"pool": pool, "free": [2], "cs": False, "ops": [list(o) for o in seq]}
@@ -1017,4 +1114,4 @@ def run(tier, seed, replay=None):
                     XHEADER, "bcase_ok", oracle=oracle_b, show_fn="bcase_run", nontrivial=lambda c, o: c["n"] > 1,
                     search=None, shard=400, label="bitstring correspondence")
     return ctx.finish(level="proof",
-                      rule="random op histories (<=25 quick / <=60 thorough ops) drawn by a state-aware generator (operands mostly members / present labels incl. case variants / subsets of live bits; taxa_bitmask followed by bitmask_taxa_list of its result) over label pools with duplicates and case variants, both case settings, several API spellings per op (append/add_taxa, del ns[i]/remove, copy.copy, split_as_newick_string, get_taxa_bitmask); thorough adds every history of length <=3 over a 24-op alphabet and every history of length 4 over an 11-op alphabet; a case is non-trivial when it has >=3 executed ops and reaches a namespace with >=2 members; distinct by full case content; second wave: 300 quick / 4000 thorough such histories with bitmask_as_bitstring, split_as_string, label_taxon_map, taxa_bipartition(taxa=/labels=), taxa_bitmask(labels=), get_taxa_bitmask, ns[i], ns[a:b], ns[label], in, labels() interleaved; 200 quick / 1570 thorough (n, length) pairs for int_as_bitstring / bit_length; multi-namespace wave: 240 quick / 5000 thorough histories (<=22 / <=50 ops) over up to 5 namespaces sharing Taxon objects, built by TaxonNamespace() / TaxonNamespace([taxa and labels]) / TaxonNamespace(other) with and without the is_mutable / is_case_sensitive keywords, copy.copy, __copy__, copy.deepcopy, with the base operations addressed to any of them (operands steered to members, to taxa of the OTHER namespaces and to present labels), taxon_namespace_scoped_copy, == and <; every namespace is observed after every step (members, indices, counter via all_taxa_bitmask, flags; in half of the cases also taxon_bitmask of every member)")
+                      rule="random op histories (<=25 quick / <=60 thorough ops) drawn by a state-aware generator (operands mostly members / present labels incl. case variants / subsets of live bits; taxa_bitmask followed by bitmask_taxa_list of its result) over label pools with duplicates and case variants, both case settings, several API spellings per op (append/add_taxa, del ns[i]/remove, copy.copy, split_as_newick_string, get_taxa_bitmask); the batch entry points add_taxa(list / tuple / generator of Taxon objects in which the SAME not-yet-member object, and members, occur repeatedly), new_taxa / has_taxa_labels / get_taxa with the same label repeated inside one batch, TaxonNamespace([...]) with repeated objects and labels; after every operation the oracle checks that the members are pairwise distinct objects, each with one accession index inside all_taxa_bitmask, and that all_taxa_bitmask has no bit that never had an owner; thorough adds every history of length <=3 over a 25-op alphabet and every history of length 4 over an 11-op alphabet; a case is non-trivial when it has >=3 executed ops and reaches a namespace with >=2 members; distinct by full case content; second wave: 300 quick / 4000 thorough such histories with bitmask_as_bitstring, split_as_string, label_taxon_map, taxa_bipartition(taxa=/labels=), taxa_bitmask(labels=), get_taxa_bitmask, ns[i], ns[a:b], ns[label], in, labels() interleaved; 200 quick / 1570 thorough (n, length) pairs for int_as_bitstring / bit_length; multi-namespace wave: 240 quick / 5000 thorough histories (<=22 / <=50 ops) over up to 5 namespaces sharing Taxon objects, built by TaxonNamespace() / TaxonNamespace([taxa and labels]) / TaxonNamespace(other) with and without the is_mutable / is_case_sensitive keywords, copy.copy, __copy__, copy.deepcopy, with the base operations addressed to any of them (operands steered to members, to taxa of the OTHER namespaces and to present labels), taxon_namespace_scoped_copy, == and <; every namespace is observed after every step (members, indices, counter via all_taxa_bitmask, flags; in half of the cases also taxon_bitmask of every member)")
